@@ -151,7 +151,8 @@ def part_thresh(ctx):
     cfgs += [cooc_cfg.cfg("flat", False, [cooc_cfg.win("before", 2, offset=1, mix=2), cooc_cfg.win("after", 1)])]
     for fam, timed in (("token", False), ("timed", True)):
         use = [c for c in cfgs if not (timed and c["kernel"] == "harmonic")]
-        items = cooc_gen.emit(ctx, 3 if not timed else 2, ctx.pick(4, 5) if not timed else ctx.pick(3, 4), ctx.pick(1, 2), use,
+        shapes = ctx.pick([(3, 1)], [(4, 1), (2, 2)]) if timed else ctx.pick([(4, 1)], [(5, 1), (3, 2)])
+        items = cooc_gen.emit_shapes(ctx, 3 if not timed else 2, shapes, use,
                               "Cooc with epsilon thresholding (%s)" % fam,
                               extra_constants=dict(Eps=eps, TIMED=timed, Gaps=tlc.TLAExpr("{0,1,2}" if timed else "{1}")))
         if len(items) > ctx.pick(700, 40000):
